@@ -4,6 +4,7 @@ import NixModel.Lemmas.C08Slices
 import NixModel.Lemmas.C08View
 import NixModel.Lemmas.C08Lookup
 import NixModel.Lemmas.C08Band
+import NixModel.Lemmas.C08Cases
 import NixModel.Props.C06
 
 /-!
@@ -487,6 +488,62 @@ theorem C08_feature_multi (t : MTagDesc) (nfeats idx : Nat) (stop : SliceMode) (
       | exact ws h1 h3 h4 h5 h6 => simp only [viewIfInData, h3, h4]; exact ⟨trivial, trivial, h5, h6⟩
       | beyond ws h1 h2 h3 h4 => simp only [viewIfInData, h3]; exact Or.inr ⟨trivial, Or.inr h2⟩
 
+/-! ## special shapes of the tag: extent of zeros, no position, fewer units than positions -/
+
+/-- **An extent of zeros is no extent.** A tag whose extent entries are all zero (one per position entry) returns
+exactly what the same tag without an extent returns — tagged data and feature data, every link type, both stop
+rules, every array. -/
+theorem C08_zero_extent (t : TagDesc) (nrefs refidx nfeats : Nat) (link : LinkType) (arr : Arr) (stop : SliceMode)
+    (hz : ∀ e, e ∈ t.extent → e = 0) (hlen : t.extent.length = t.position.length) :
+    Tag.taggedData t nrefs refidx arr stop = Tag.taggedData ⟨t.position, [], t.units⟩ nrefs refidx arr stop ∧
+    Tag.featureData t nfeats link arr stop = Tag.featureData ⟨t.position, [], t.units⟩ nfeats link arr stop := by
+  have hc := calcSlices_zero_extent stop arr.dims arr.shape t.position t.extent (unitsOpt t.units) hz
+  have h2 : (!t.extent.isEmpty && t.position.length != t.extent.length) = false := by simp [hlen]
+  constructor
+  · simp only [Tag.taggedData, h2, hc, List.isEmpty_nil, Bool.not_true, Bool.false_and]
+  · simp only [Tag.featureData, hc]
+
+/-- **Without a position the whole array is tagged**: every axis is taken whole, whatever the descriptors and units. -/
+theorem C08_no_position_whole (t : TagDesc) (nrefs refidx : Nat) (ref : Arr) (stop : SliceMode)
+    (hp : t.position = []) (he : t.extent = []) (href : refidx < nrefs)
+    (hrank : ref.dims.length = ref.shape.length) :
+    Tag.taggedData t nrefs refidx ref stop =
+      .ok ⟨ref.shape, true, ref.shape.map fun (n : Nat) => (((0 : Int), (n : Int)) : Win)⟩ := by
+  have hc := calcSlices_no_position stop ref.dims ref.shape t.extent (unitsOpt t.units) hrank
+  have h0 : ¬ nrefs = 0 := by omega
+  have h1 : ¬ refidx ≥ nrefs := by omega
+  have hin : slicesInData ref.shape (fullWindows ref.shape) = .ok true := by
+    rw [fullWindows_eq]
+    simp only [slicesInData, allSome_map_some]
+    rw [npAllLe_eq _ _ (by simp)]
+    rw [windowsIn_stopsIn _ _ (full_windowsIn ref.shape)]
+  have hall : (allSome (fullWindows ref.shape)).isNone = false := by
+    rw [fullWindows_eq, allSome_map_some]
+    rfl
+  rw [he] at hc
+  simp only [Tag.taggedData, h0, h1, if_false, he, List.isEmpty_nil, Bool.not_true, Bool.false_and,
+    Bool.false_eq_true]
+  rw [hp, hc]
+  simp only [hall, Bool.false_eq_true, if_false, viewIfInData, hin, full_view]
+
+/-- **Fewer units than positions: never data.** A tag that carries units, but fewer than there are axes with a
+position, is refused with an error on every array (`units[idx]` is an `IndexError` unless an earlier axis failed). -/
+theorem C08_units_short_refused (t : TagDesc) (nrefs refidx : Nat) (ref : Arr) (stop : SliceMode)
+    (hu : t.units ≠ []) (h1 : t.units.length < t.position.length) (h2 : t.units.length < ref.dims.length) :
+    ∃ e, Tag.taggedData t nrefs refidx ref stop = .error e := by
+  have hopt : unitsOpt t.units = some t.units := by
+    cases hus : t.units with
+    | nil => exact absurd hus hu
+    | cons u us => simp [unitsOpt]
+  obtain ⟨e, he⟩ := calcSlices_units_short stop ref.dims ref.shape t.position t.extent t.units h1 h2
+  unfold Tag.taggedData
+  split_ifs
+  · exact ⟨_, rfl⟩
+  · exact ⟨_, rfl⟩
+  · exact ⟨_, rfl⟩
+  · rw [hopt, he]
+    exact ⟨e, rfl⟩
+
 /-! ## addressing the reference / the feature: index (creation order, negative from the end), id, name -/
 
 /-- **Reference lookup** (`LinkContainer.__getitem__`). The references are kept in the order they were appended:
@@ -853,6 +910,12 @@ example : AxesOffBand .exclusive exArr.dims exTag.position exTag.extent (unitsOp
     · show OffBandNum _ _
       unfold OffBandNum Nix.C07.OffBand
       decide +kernel
+
+/-- one unit for two positions: refused; an extent of zeros selects the exact position, as no extent does -/
+example : Tag.taggedData ⟨[2000, 1], [], ["ms".toList]⟩ 1 0 exArr .exclusive = .error .indexError := by decide +kernel
+example : Tag.taggedData ⟨[2000, 1], [0, 0], exTag.units⟩ 1 0 exArr .exclusive = .ok ⟨[6, 3], true, [(1, 2), (1, 2)]⟩ ∧
+    Tag.taggedData ⟨[2000, 1], [], exTag.units⟩ 1 0 exArr .exclusive = .ok ⟨[6, 3], true, [(1, 2), (1, 2)]⟩ := by
+  decide +kernel
 
 /-- an end point half way between two samples is off the band; one 2⁻³⁰ beside a sample is not -/
 example : OffBandAt (.sampled 0 1 none) (7 / 2) := by
